@@ -25,6 +25,8 @@ pub mod ctx;
 pub mod poly;
 pub mod fri;
 pub mod gates;
+pub mod plonk;
+pub mod plonkv;
 pub mod smt;
 
 pub const P: u64 = 0xFFFF_FFFF_0000_0001;
@@ -472,6 +474,14 @@ impl Field for SymF {
         Self::lift(G::from_noncanonical_u128(n))
     }
     fn from_noncanonical_u64(n: u64) -> Self {
+        if n >= P {
+            // placeholder handed out by to_canonical_u64 (HashOut::from_bytes reduces with
+            // from_noncanonical_u64)
+            let ok = with(|a| a.placeholders && ((n - P) as usize) < a.nodes.len());
+            if ok {
+                return SymF { k: 1, id: (n - P) as u32, val: 0 };
+            }
+        }
         Self::lift(G::from_noncanonical_u64(n))
     }
     fn from_noncanonical_i64(n: i64) -> Self {
